@@ -439,7 +439,7 @@ class SimPs:
             for pid in sorted(k.procs):
                 if pid not in self.pmap and pid not in evicted and self._new(k, pid):
                     self.pmap[pid] = len(self.objs) - 1
-        elif kind in ("is_running", "signal", "setter", "ppid"):
+        elif kind in ("is_running", "signal", "setter", "ppid") or (kind == "other" and op.get("what") == "children"):
             i = op["i"]
             if i < len(self.objs):
                 o = self.objs[i]
@@ -474,12 +474,22 @@ class Impl:
                       (self.plat.cext, "proc_cpu_affinity_set", self.plat.cext.proc_cpu_affinity_set),
                       (resource, "prlimit", resource.prlimit)]
         self.patched = False
+        self.in_other = False
+        self.saved.append((os, "waitpid", os.waitpid))
         self.clk = int(self.plat.CLOCK_TICKS)
         self._stat_re = re.compile(re.escape(self.fp.root) + r"/(\d+)/stat$")
 
     # ---- OS recorders
     def _deliver(self, kind, pid, arg):
         pid = int(pid)
+        if self.in_other and kind == "kill" and arg == [0] and pid > 0:
+            # `pid_exists()` inside wait(): kill(pid, 0) is an existence probe ("if sig is 0 no signal is sent"), not an effect
+            if pid not in self.kern.procs:
+                raise ProcessLookupError(errno.ESRCH, "No such process")
+            res = self.kern.denied.get(pid)
+            if res is not None:
+                raise OSError(getattr(errno, res), os.strerror(getattr(errno, res)))
+            return
         if kind == "kill" and pid <= 0:
             # the OS would signal a whole process group
             self.log.append({"kind": kind, "obj": self.cur, "pid": pid, "arg": arg, "owner": None, "res": None})
@@ -516,6 +526,11 @@ class Impl:
                 raise RuntimeError("harness: prlimit get form not expected")
             self._deliver("rlimit", pid, [int(res)] + [int(x) for x in limits])
         self.resource.prlimit = prlimit
+
+        def waitpid(pid, flags):
+            # no simulated process is a child of the harness
+            raise ChildProcessError(errno.ECHILD, "No child processes")
+        os.waitpid = waitpid
         self.ps._common.open = self._open       # shadows the builtin for open_binary / open_text only
         self.patched = True
 
@@ -674,6 +689,21 @@ class Impl:
                 # the object list (in yield order), cached ones keep the index they already have
                 self.cur = None
                 return {"kind": "procs", "v": [[p.pid, self._handle(p)] for p in list(ps.process_iter())]}
+            if k == "other":
+                # another public call on object i; its own outcome (value or exception) is an ignored observable, what it
+                # does to the answers and effects of every LATER call is not
+                p = self._obj(op["i"])
+                self.in_other = True
+                try:
+                    OTHER_CALLS[op["what"]](p, self)
+                except BadCall:
+                    raise
+                except BaseException as e:
+                    if isinstance(e, (KeyboardInterrupt, SystemExit)):
+                        raise
+                finally:
+                    self.in_other = False
+                return {"kind": "other"}
             if k == "status":
                 p = self._obj(op["i"])
                 txt, rep = str(p), repr(p)
@@ -698,6 +728,26 @@ class Impl:
 
 class BadCall(Exception):
     pass
+
+
+# public Process calls outside the identity machinery (model: identity, `Call.oneshot`; "children" = the reuse guard,
+# `Call.ppid`).  parent()/parents() are not in the table: they shortcut on `pids()[0]` before the guard (C05's subject).
+OTHER_CALLS = {
+    "wait": lambda p, impl: p.wait(timeout=0),
+    "as_dict": lambda p, impl: p.as_dict(attrs=["name", "status"]),
+    "name": lambda p, impl: p.name(),
+    "status": lambda p, impl: p.status(),
+    "cpu_times": lambda p, impl: p.cpu_times(),
+    "str": lambda p, impl: str(p),
+    "repr": lambda p, impl: repr(p),
+    "hash": lambda p, impl: hash(p),
+    "eq_self": lambda p, impl: [p == q for q in impl.objs],
+    "username": lambda p, impl: p.username(),
+    "num_threads": lambda p, impl: p.num_threads(),
+    "pid": lambda p, impl: p.pid,
+    "children": lambda p, impl: p.children(),
+}
+OTHER_NAMES = sorted(OTHER_CALLS)
 
 
 # ------------------------------------------------------------------------------ comparing
@@ -813,6 +863,9 @@ def run_histories(ctx, impl, hists, driver_file=None):
             if o["op"] in ONESHOT_OPS and im.get("exc") == "badCall":
                 # model: `Call.oneshot` is the identity on every state (C02_oneshot_identity), whatever the index
                 im = {"kind": "unit"}
+            if o["op"] == "other":
+                # the outcome of the call itself is not compared (only that it reached nothing and what follows)
+                im = m["model"]["out"]
             rows.append((o, im, [norm_eff(e) for e in effs], m["model"]["out"], m["model"]["eff"], m["spec"], impl.last_aux))
         pm = outs[i]
         i += 1
@@ -1251,6 +1304,36 @@ def gen_history(rng, family, clk):
                     P.query(i)
         for i in range(P.nobj):
             P.ev(op="is_running", i=i)
+    elif family == "wait_then_reuse":
+        # seeded C01-3 and its family: a public call that is "not part of the identity machinery" (wait() caching the exit
+        # code, as_dict(), str(), …) runs on the object, then the PID is recycled: the guard must still refuse
+        P.ev(op="spawn", pid=p).ev(op="new", pid=p)
+        if rng.random() < 0.3:
+            P.ev(op="other", i=0, what="wait")               # still alive: TimeoutExpired, nothing cached
+        if rng.random() < 0.3:
+            P.ev(op="enter", i=0)
+        if rng.random() < 0.5:
+            P.ev(op="exit", pid=p)
+            if rng.random() < 0.3:
+                P.ev(op="other", i=0, what="wait")           # zombie of somebody else: still there
+        P.ev(op="reap", pid=p)
+        P.ev(op="other", i=0, what="wait" if rng.random() < 0.7 else rng.choice(OTHER_NAMES))   # wait(0) → None
+        if rng.random() < 0.3:
+            P.ev(op="other", i=0, what=rng.choice(OTHER_NAMES))
+        P.tick()
+        P.ev(op="spawn", pid=p)
+        if rng.random() < 0.2:
+            P.ev(op="exit", pid=p)
+        if rng.random() < 0.3:
+            P.ev(op="other", i=0, what=rng.choice(OTHER_NAMES))
+        for _ in range(rng.randrange(1, 4)):
+            P.effect_call(0)
+        if rng.random() < 0.5:
+            P.ev(op="new", pid=p)
+            P.ev(op="other", i=1, what="wait")
+            P.effect_call(1)
+            P.ev(op="is_running", i=1)
+        P.ev(op="is_running", i=0)
     elif family == "perm_paths":
         # EPERM / EACCES from os.kill and from every setter's native call: AccessDenied(pid), exactly one attempt on the
         # object's own incarnation with the values asked, no sticky flag; the guard still comes first on a recycled PID
@@ -1387,7 +1470,34 @@ def gen_history(rng, family, clk):
             elif P.nobj:
                 i = rng.randrange(P.nobj)
                 P.effect_call(i) if rng.random() < 0.5 else P.query(i)
-    return sprinkle_oneshot(rng, P.hist(family))
+    return sprinkle_other(rng, sprinkle_oneshot(rng, P.hist(family)))
+
+
+def sprinkle_other(rng, h):
+    """with probability 1/2 insert 1-3 OTHER public calls (wait(0), as_dict(), name(), str(), children(), …) on some
+    object somewhere after its creation: their own outcome is ignored, every later answer and effect is compared as usual"""
+    if rng.random() >= 0.5:
+        return h
+    for _ in range(rng.randrange(1, 4)):
+        ops = h["ops"]
+        k = SimKernel(1)
+        sp = SimPs()
+        born = []
+        for n, o in enumerate(ops):
+            if o["op"] in KERNEL_OPS:
+                k.apply(o)
+            else:
+                sp.apply(k, o)
+                born.extend([n] * (len(sp.objs) - len(born)))
+        if not born:
+            return h
+        j = rng.randrange(len(born))
+        a = rng.randrange(born[j] + 1, len(ops) + 1)
+        what = "wait" if rng.random() < 0.4 else rng.choice(OTHER_NAMES)
+        if what == "children" and any(o["op"] == "process_iter" for o in ops[a:]):
+            what = "wait"      # (children() runs the guard: it would shift which objects later sweeps create; keep indices valid)
+        ops.insert(a, {"op": "other", "i": j, "what": what})
+    return h
 
 
 def sprinkle_oneshot(rng, h):
@@ -1418,7 +1528,7 @@ def sprinkle_oneshot(rng, h):
 
 FAMILIES = ["gone_path", "reuse_noquery", "reuse_zombie", "multi_recycle", "pid0", "clock_step", "coincidence",
             "live", "mixed", "oneshot_reuse", "iter_handles", "iter_mixed", "mixed", "iter_handles", "btime0",
-            "perm_paths", "perm_mixed", "unknown_start", "perm_paths"]
+            "perm_paths", "perm_mixed", "unknown_start", "perm_paths", "wait_then_reuse", "wait_then_reuse"]
 
 
 def well_indexed(combo):
@@ -1545,6 +1655,26 @@ def exhaustive_perm(maxlen, btime=1000):
             yield {"btime": btime, "ops": ops, "family": "exhaustive_perm", "hyp": True}
 
 
+def exhaustive_wait(maxlen, btime=1000):
+    """all histories `spawn · Process · w`, |w| <= maxlen, over {wait(0) on object 0, as_dict(0), children(0), exit, reap,
+    spawn, kill(0), nice(0), is_running(0)} containing a wait(0): every placement of a wait() — on the live process, on
+    the zombie, after the reaping, after the recycling — relative to the calls the guard protects"""
+    p = 5
+    alphabet = [
+        {"op": "other", "i": 0, "what": "wait"}, {"op": "other", "i": 0, "what": "as_dict"},
+        {"op": "other", "i": 0, "what": "children"},
+        {"op": "exit", "pid": p}, {"op": "reap", "pid": p}, {"op": "spawn", "pid": p},
+        {"op": "signal", "i": 0, "m": "kill", "sig": 0}, {"op": "setter", "i": 0, "k": "nice", "args": [3]},
+        {"op": "is_running", "i": 0},
+    ]
+    head = [{"op": "spawn", "pid": p}, {"op": "new", "pid": p}]
+    for n in range(1, maxlen + 1):
+        for combo in itertools.product(alphabet, repeat=n):
+            if not any(o.get("what") == "wait" for o in combo):
+                continue
+            yield {"btime": btime, "ops": head + [dict(o) for o in combo], "family": "exhaustive_wait", "hyp": True}
+
+
 def exhaustive_hidden(maxlen, btime=1000):
     """(outside the hypotheses: model comparison only) all well-indexed histories `spawn · w`, |w| <= maxlen, over
     {stat of PID 5 unreadable, readable, Process(5), reap, spawn, is_running(0), kill(0), ==(0,1)} containing a `hide`"""
@@ -1614,6 +1744,8 @@ def features(h, result):
             f.add("new_" + im["exc"])
         if k == "hide" and o["on"]:
             f.add("stat_hidden")
+        if k == "other":
+            f.add("other:" + o["what"])
         if im.get("exc") == "AccessDenied" and k not in ("signal", "setter"):
             f.add("access_denied:" + k)
         if k == "process_iter" and im.get("kind") == "procs":
@@ -1716,7 +1848,14 @@ def witness_corpus(clk):
         {"op": "create_time", "i": 0}, {"op": "ppid", "i": 0}, {"op": "status", "i": 0},
         {"op": "is_running", "i": 0}, {"op": "signal", "i": 0, "m": "terminate", "sig": 0}, {"op": "process_iter"},
         {"op": "is_running", "i": 1}, {"op": "eq", "i": 0, "j": 1}]}
-    return [l1, l2, l2b, it, it2, aff, perm, u1, u2, u3]
+    # seeded C01-3: wait() returned for the object (exit code cached), the PID is recycled, then signals / setters
+    w1 = {"btime": 1000, "family": "corpus:wait-then-reuse", "hyp": True, "ops": [
+        {"op": "spawn", "pid": 7}, {"op": "new", "pid": 7}, {"op": "other", "i": 0, "what": "wait"},
+        {"op": "reap", "pid": 7}, {"op": "other", "i": 0, "what": "wait"}, {"op": "spawn", "pid": 7},
+        {"op": "signal", "i": 0, "m": "kill", "sig": 0}, {"op": "setter", "i": 0, "k": "nice", "args": [5]},
+        {"op": "other", "i": 0, "what": "as_dict"}, {"op": "other", "i": 0, "what": "children"},
+        {"op": "setter", "i": 0, "k": "affinity", "args": [0]}, {"op": "is_running", "i": 0}]}
+    return [l1, l2, l2b, it, it2, aff, perm, u1, u2, u3, w1]
 
 
 def correspond_for(ctx, res, prop, driver_file, n_quick, n_thorough):
@@ -1740,6 +1879,7 @@ def correspond_for(ctx, res, prop, driver_file, n_quick, n_thorough):
         hists.extend(exhaustive_oneshot(4 if ctx.tier == "quick" else 5))
         hists.extend(exhaustive_iter(4 if ctx.tier == "quick" else 5))
         hists.extend(exhaustive_perm(4 if ctx.tier == "quick" else 5))
+        hists.extend(exhaustive_wait(4 if ctx.tier == "quick" else 5))
         hists.extend(exhaustive_hidden(4 if ctx.tier == "quick" else 5))
         if ctx.tier != "quick":
             hists.extend(exhaustive_two_pids_iter(6))
@@ -1782,7 +1922,8 @@ def correspond_for(ctx, res, prop, driver_file, n_quick, n_thorough):
                           "|w| <= %d, over {process_iter(), is_running(0), is_running(1), reap, spawn, kill(1), ==(0,1), cpu_affinity(0, [])} "
                           "containing a process_iter() or a cpu_affinity([]); all well-indexed histories spawn·Process·w, |w| <= %d, over "
                           "{kernel refuses PID 5 with EPERM, allows it, reap, spawn, kill(0), nice(0), is_running(0), Process(5), kill(1)} "
-                          "containing a refusal; (model comparison only, outside the hypotheses) all well-indexed histories spawn·w, "
+                          "containing a refusal; all histories spawn·Process·w, |w| <= same bound, over {wait(0) on object 0, as_dict(0), "
+                          "children(0), exit, reap, spawn, kill(0), nice(0), is_running(0)} containing a wait(0); (model comparison only, outside the hypotheses) all well-indexed histories spawn·w, "
                           "2 <= |w| <= %d, over {stat of PID 5 unreadable, readable, Process(5), reap, spawn, is_running(0), kill(0), ==(0,1)} "
                           "containing an unreadable phase%s; the random families are samples"
                           % (len(hists) - n_rand, maxlen, maxlen, 4 if ctx.tier == "quick" else 5, 4 if ctx.tier == "quick" else 5,
